@@ -3,7 +3,7 @@
     Models: Model/Topology.v (triangles.pyx, cliques.pyx, core.pyx, minheap.pyx, directed2undirected),
     Model/Bfs.v (get_dag). *)
 From Coq Require Import String.
-From SKN Require Import Base.Util Model.Bfs Model.Topology Proofs.BfsProofs Proofs.TopologyProofs Gen.Prange.
+From SKN Require Import Base.Util Model.Bfs Model.Topology Proofs.BfsProofs Proofs.TopologyProofs Gen.TrianglesPrange.
 From Coq Require Import Permutation Sorted.
 
 (** The two-pointer loop of count_local_triangles_from_dag (advance both on [==] and count, advance i on
@@ -31,7 +31,7 @@ Theorem count_triangles_schedule_independent (d : graph) (sched : list (list nat
 Proof. exact (TopologyProofs.count_triangles_schedule_independent d sched). Qed.
 Print Assumptions count_triangles_schedule_independent.
 
-(** Obligation over the generated description of triangles.pyx (Gen/Prange.v, re-extracted from the
+(** Obligation over the generated description of triangles.pyx (Gen/TrianglesPrange.v, re-extracted from the
     source on every run): there is exactly one prange loop, its body performs no subscripted assignment,
     its only augmented assignment is the scalar reduction [n_triangles +=], it calls only
     count_local_triangles_from_dag, which is [nogil] and performs no subscripted assignment either. *)
@@ -79,6 +79,14 @@ Theorem clustering_coefficient_def (g : graph) :
   end.
 Proof. exact (TopologyProofs.clustering_coefficient_def g). Qed.
 Print Assumptions clustering_coefficient_def.
+
+(** The denominator of the coefficient counts connected triples: the sum over the nodes of degree > 1
+    of d_v (d_v - 1) is twice the number of paths b - v - c with b < c; hence the coefficient is
+    3 T / #connected triples. *)
+Theorem connected_triples_spec (adj : nat -> nat -> bool) (n : nat) :
+  2 * connected_triples adj n = triples_spec2 adj n.
+Proof. exact (TopologyProofs.connected_triples_spec adj n). Qed.
+Print Assumptions connected_triples_spec.
 
 (** Cliques, level L1 (count k S = sum_{u in S} count (k-1) (N+(u) /\ S), base case k = 2 as coded):
     on any DAG [d] that orients a symmetric relation [adj] on the nodes < n by an injective key [ord]
